@@ -20,6 +20,7 @@ import (
 	"fmt"
 	"os"
 	"sort"
+	"strings"
 
 	"github.com/WuKongIM/WuKongIM/internal/verifh/vh"
 	"github.com/WuKongIM/WuKongIM/pkg/controller/command"
@@ -107,10 +108,32 @@ type tables struct {
 	srefIdx  map[string]int
 	results  []string // distinct ApplyResults
 	resIdx   map[string]int
+	shared   []string // sub-terms bound once by "let vK := ... in" around the case term
+	shareIdx map[string]int
+}
+
+// share binds a (large, repeated) sub-term once and returns the bound variable.
+func (t *tables) share(term string) string {
+	if len(term) < 24 {
+		return term
+	}
+	return fmt.Sprintf("v%d", intern(&t.shared, t.shareIdx, term))
+}
+
+// wrap puts the let-bindings of the shared sub-terms around the case term.
+func (t *tables) wrap(term string) string {
+	var b strings.Builder
+	b.WriteString("(")
+	for i, d := range t.shared {
+		fmt.Fprintf(&b, "let v%d := %s in ", i, d)
+	}
+	b.WriteString(term)
+	b.WriteString(")")
+	return b.String()
 }
 
 func newTables() *tables {
-	return &tables{bodyIdx: map[string]int{}, blobIdx: map[string]int{}, transIdx: map[string]int{}, srefIdx: map[string]int{}, resIdx: map[string]int{}}
+	return &tables{bodyIdx: map[string]int{}, blobIdx: map[string]int{}, transIdx: map[string]int{}, srefIdx: map[string]int{}, resIdx: map[string]int{}, shareIdx: map[string]int{}}
 }
 
 func intern(list *[]string, idx map[string]int, term string) uint64 {
@@ -384,7 +407,7 @@ func run(in input) vh.Result {
 		scens = append(scens, vh.List(newRunner(t).scenario(log, sc)))
 	}
 	initRef := vh.N(t.sref(newRunner(t).sm.Snapshot(context.Background())))
-	coq := vh.App("C18Case", vh.List(t.bodies), vh.List(t.srefs), vh.List(t.results), initRef, entries, vh.List(ref), vh.List(scens))
+	coq := t.wrap(vh.App("C18Case", vh.List(t.bodies), vh.List(t.srefs), vh.List(t.results), initRef, entries, vh.List(ref), vh.List(scens)))
 
 	kinds := map[string]bool{}
 	for _, e := range log {
